@@ -100,12 +100,15 @@ OpFrom(ls, i, s) ==
                 ELSE OpFrom(ls, i + 1, s)
            [] l.kind = "ws" -> OpFrom(ls, i + 1, NewlineEvent(ls, i, s, TRUE))
            [] l.kind = "comment" ->
-                \* a full-line comment yields only the dents; on the first line of the text nothing at all
-                IF i = 1 /\ s.depth = 0 THEN OpFrom(ls, i + 1, s)
-                ELSE OpFrom(ls, i + 1, NewlineEvent(ls, i, s, FALSE))
+                \* a full-line comment yields only the dents (the start of the text counts as a line start)
+                OpFrom(ls, i + 1, NewlineEvent(ls, i, s, FALSE))
            [] OTHER -> LET s2 == CodeTokens(l, s) IN
                        IF s2.crash THEN s2 ELSE OpFrom(ls, i + 1, NewlineEvent(ls, i, s2, TRUE))
-OpLex(ls) == OpFrom(ls, 1, St(0, 0, <<>>, <<>>, FALSE))
+\* Lexer.input: the first line has no newline before it, so its indentation is judged at the start (an empty
+\* first line is left to the newline token that follows)
+StartEvent(ls) == LET s0 == St(0, 0, <<>>, <<>>, FALSE) IN
+                  IF ls = <<>> \/ ls[1].kind = "blank" THEN s0 ELSE NewlineEvent(ls, 0, s0, FALSE)
+OpLex(ls) == OpFrom(ls, 1, StartEvent(ls))
 
 \* ------------------------------------------------------------- declarative side
 \* layout that must not matter is removed first
@@ -159,8 +162,9 @@ Next == AddLine
 Spec == Init /\ [][Next]_vars
 
 \* ------------------------------------------------------------- properties
-\* the known departure (DESIGN 5): the indentation of the first physical line is never looked at
-\* -- nor that of the first code line when only a comment on line 1 (and blank lines) precede it
+\* FirstLineDev names the input class of a departure that has been repaired (known_findings.json, C11): the
+\* indentation of the first physical line used not to be looked at -- nor that of the first code line when only a
+\* comment on line 1 (and blank lines) preceded it.  It is kept in the vectors for the evidence only.
 FirstCode == IF \E i \in DOMAIN lines : IsCode(lines[i])
              THEN CHOOSE i \in DOMAIN lines : IsCode(lines[i]) /\ \A j \in 1..(i - 1) : ~IsCode(lines[j])
              ELSE 0
@@ -175,7 +179,7 @@ NoCrash == ~Op.crash /\ ~Decl.crash
 \* comments, blank lines, whitespace-only lines and trailing comments do not change the tokens,
 \* nor whether the layout is in error
 LayoutInvariance ==
-    (~FirstLineDev /\ ~Op.crash) =>
+    ~Op.crash =>
         /\ (Op.errs = <<>>) = (Decl.errs = <<>>)
         /\ (Op.errs = <<>> => Canon(Op.skel) = Canon(Decl.skel))
 \* at the end of the text every INDENT has its DEDENT
